@@ -168,13 +168,15 @@ def _case_from_behaviour(st: dict[str, Any], n: int, max_retry: int) -> tuple[di
         return ["neg", int(c[3:])]
 
     ecu = cs.env(session, envd["dsc"], envd["sread"], [cls(c) for c in envd["ans"]], cls("pos"))
+    if session == 1 and envd["dsc"] != "ok":
+        ecu["dsc"] = {"1": envd["dsc"]}   # the design's ECU may also refuse / ignore a switch to the default session
     case = cs.make_case(kind, opt, session, ecu, style=n, origin="tlc-simulate", omit_default=bool(n % 2),
                         extra={"max_retries": max_retry, "tester_present": False} if kind != "ping" else {"max_retries": max_retry})
     return case, _projection(kind, st["hist"], st["done"])
 
 
 def _spec_to_code(rep: Report, tier: str, seed: int) -> list[tuple[dict[str, Any], list[Any]]]:
-    nsim = 40 if tier == "quick" else 400
+    nsim = 40 if tier == "quick" else 800
     _res, behs = tlc.simulate_behaviours("MC_Primitives", "MC_Primitives_sim.cfg", num=nsim, depth=200, seed=seed + 1,
                                          timeout=1500)
     out = []
@@ -312,73 +314,109 @@ def run(tier: str, seed: int) -> Report:
 
 
 def _selftest(rep: Report, traces: list[dict[str, Any]], cases: list[dict[str, Any]], verdicts: dict[int, str]) -> None:
+    """Corrupt one field of accepted traces (and run one mutant of the fake ECU): TLC must reject each of them.  A shape
+    of trace that is not available because the tree under test violates the contract there is skipped (and said so);
+    on a tree without violations every mutation must be possible."""
+
     def clone(t: dict[str, Any]) -> dict[str, Any]:
         return json.loads(json.dumps(t))
 
     def subj(t: dict[str, Any]) -> list[int]:
         return [j for j, e in enumerate(t["ev"]) if e["k"] == "q" and e["ph"] == "main" and e.get("subj")]
 
-    def pick(pred: Any) -> dict[str, Any]:
-        for i, t in enumerate(traces):
-            if verdicts[i] == "ok" and pred(t, cases[i]):
-                return t
-        raise Machinery("no accepted trace of the shape the binding self-test needs")
+    def pick(kinds: tuple[str, ...], pred: Any) -> dict[str, Any] | None:
+        for kind in kinds:
+            for i, t in enumerate(traces):
+                if t["kind"] == kind and verdicts[i] == "ok" and pred(t, cases[i]):
+                    return t
+        return None
 
     def all_pos(t: dict[str, Any]) -> bool:
         s = subj(t)
         return bool(s) and all(t["ev"][j]["r"] == "pos" for j in s) and t["done"] == "ok"
 
+    def dsc_of(t: dict[str, Any], c: dict[str, Any]) -> str:
+        return str(c["ecu"].get("dsc", {}).get(str(t["session"]), "-"))
+
     muts: list[tuple[str, dict[str, Any], str]] = []
-    base = pick(lambda t, c: t["kind"] == "wdbi" and t["session"] == 3 and all_pos(t) and c["ecu"].get("dsc", {}).get("3") == "ok")
-    a = clone(base)
-    a["ev"][subj(a)[0]]["t"] = 1
-    muts.append(("request moved to the default session", a, "R2/"))
-    b = clone(base)
-    b["ev"][subj(b)[0]]["p"][-1] ^= 1
-    muts.append(("one byte of the request changed", b, "R1/request-differs"))
-    c = clone(base)
-    c["ev"].insert(subj(c)[0] + 1, dict(c["ev"][subj(c)[0]]))
-    muts.append(("request sent twice", c, "R1/request-sent-more-often"))
-    d = clone(base)
-    d["ev"] = [e for e in d["ev"] if e["k"] != "res"]
-    muts.append(("result record removed", d, "O1/positive-response-not-reported"))
-    e_ = clone(base)
-    e_["done"] = "exit1"
-    muts.append(("exit status changed to non-zero", e_, "O1/positive-outcome-reported-as-failure"))
-    neg = pick(lambda t, c: t["kind"] == "rmba" and subj(t) and t["ev"][subj(t)[0]]["r"] == "neg" and t["session"] == 2)
-    f = clone(neg)
-    for e in f["ev"]:
-        if e["k"] == "err":
-            e["nrcs"] = []
-    muts.append(("reported response code removed", f, "O2/negative-response-code-not-reported"))
-    g = clone(neg)
-    j = subj(g)[0]
-    g["ev"].insert(j + 1, {"k": "res", "tok": [], "ms": g["ev"][j]["ms"], "ph": "main"})
-    muts.append(("success record added after a negative response", g, "O2/negative-response-reported-as-success"))
-    dat = pick(lambda t, c: t["kind"] == "rmba" and all_pos(t) and len(t["ev"][subj(t)[0]]["a"]) > 2)
-    h = clone(dat)
-    for e in h["ev"]:
-        if e["k"] == "res":
-            e["tok"] = [[x ^ 1 for x in tk] for tk in e["tok"]]
-    muts.append(("reported data changed", h, "O3/returned-data-not-reported"))
-    dl = pick(lambda t, c: t["kind"] == "rtcl" and t["opt"]["start"] and t["opt"]["stop"] and t["opt"]["sdelay"] >= 1000 and all_pos(t))
-    k = clone(dl)
-    s = subj(k)
-    k["ev"][s[1]]["ms"] = k["ev"][s[0]]["ms"] + 10
-    muts.append(("stopRoutine moved to 10 ms after startRoutine", k, "R4/request-sent-earlier"))
-    ref = pick(lambda t, c: t["kind"] == "wdbi" and c["ecu"].get("dsc", {}).get(str(t["session"])) == "neg" and not subj(t))
-    m = clone(ref)
-    m["done"] = "ok"
-    muts.append(("refused session, exit status changed to 0", m, "R3/refused-session-not-reported"))
-    pg = pick(lambda t, c: t["kind"] == "ping" and t["opt"]["count"] == 3 and not t["opt"]["bg"] and all_pos(t) and len(subj(t)) == 3)
-    n_ = clone(pg)
-    del n_["ev"][subj(n_)[2]]
-    muts.append(("third ping removed", n_, "R1/request-not-sent"))
+    skipped: list[str] = []
+
+    def need(name: str, t: dict[str, Any] | None) -> bool:
+        if t is None:
+            skipped.append(name)
+        return t is not None
+
+    simple = ("wdbi", "reset", "rmba", "wmba", "iocbi", "dddiid", "dddiclear")
+    base = pick(simple, lambda t, c: t["session"] >= 2 and all_pos(t) and dsc_of(t, c) == "ok" and c["ecu"]["sread"] == "ok")
+    if need("accepted positive run in a non-default session", base):
+        assert base is not None
+        a = clone(base)
+        a["ev"][subj(a)[0]]["t"] = 1
+        muts.append(("request moved to the default session", a, "R2/"))
+        b = clone(base)
+        b["ev"][subj(b)[0]]["p"][-1] ^= 1
+        muts.append(("one byte of the request changed", b, "R1/request-differs"))
+        c = clone(base)
+        c["ev"].insert(subj(c)[0] + 1, dict(c["ev"][subj(c)[0]]))
+        muts.append(("request sent twice", c, "R1/request-sent-more-often"))
+        d = clone(base)
+        d["ev"] = [e for e in d["ev"] if e["k"] != "res"]
+        muts.append(("result record removed", d, "O1/positive-response-not-reported"))
+        e_ = clone(base)
+        e_["done"] = "exit1"
+        muts.append(("exit status changed to non-zero", e_, "O1/positive-outcome-reported-as-failure"))
+    neg = pick(("rmba", "wdbi", "wmba", "iocbi", "vin"), lambda t, c: subj(t) and t["ev"][subj(t)[0]]["r"] == "neg")
+    if need("accepted run with a negative response", neg):
+        assert neg is not None
+        f = clone(neg)
+        for e in f["ev"]:
+            if e["k"] == "err":
+                e["nrcs"] = []
+        muts.append(("reported response code removed", f, "O2/negative-response-code-not-reported"))
+        g = clone(neg)
+        j = subj(g)[0]
+        g["ev"].insert(j + 1, {"k": "res", "tok": [], "ms": g["ev"][j]["ms"], "ph": "main"})
+        muts.append(("success record added after a negative response", g, "O2/negative-response-reported-as-success"))
+    dat = pick(("rmba", "vin", "rtcl", "iocbi"), lambda t, c: all_pos(t) and len(t["ev"][subj(t)[0]]["a"]) > 6)
+    if need("accepted run that returned data", dat):
+        assert dat is not None
+        h = clone(dat)
+        for e in h["ev"]:
+            if e["k"] == "res":
+                e["tok"] = [[x ^ 1 for x in tk] for tk in e["tok"]]
+        muts.append(("reported data changed", h, "O3/returned-data-not-reported"))
+    dl = pick(("rtcl",), lambda t, c: t["opt"]["start"] and t["opt"]["stop"] and t["opt"]["sdelay"] >= 1000 and all_pos(t))
+    if need("accepted rtcl run with a stop delay", dl):
+        assert dl is not None
+        k = clone(dl)
+        s = subj(k)
+        k["ev"][s[1]]["ms"] = k["ev"][s[0]]["ms"] + 10
+        muts.append(("stopRoutine moved to 10 ms after startRoutine", k, "R4/request-sent-earlier"))
+    ref = pick(("wdbi", "ping", "rmba", "dtcclear"), lambda t, c: dsc_of(t, c) == "neg" and not subj(t) and t["done"] != "ok")
+    if need("accepted run with a refused session", ref):
+        assert ref is not None
+        m = clone(ref)
+        m["done"] = "ok"
+        muts.append(("refused session, exit status changed to 0", m, "R3/refused-session-not-reported"))
+    pg = pick(("ping",), lambda t, c: t["opt"]["count"] == 3 and not t["opt"]["bg"] and all_pos(t) and len(subj(t)) == 3)
+    if need("accepted run of three pings", pg):
+        assert pg is not None
+        n_ = clone(pg)
+        del n_["ev"][subj(n_)[2]]
+        muts.append(("third ping removed", n_, "R1/request-not-sent"))
     # mutant of the harness's own fake: it answers positively where its record says negative
-    fc = next(c for i, c in enumerate(cases) if c["kind"] == "wdbi" and verdicts[i] == "ok" and c["ecu"]["answers"][:1] == [["neg", 0x31]]
-              and c["ecu"]["sread"] == "ok" and all(v == "ok" for v in c["ecu"].get("dsc", {}).values()))
-    fm = run_prim(fc, mutant="fake-answers-positive-when-scripted-negative")
-    muts.append(("fake ECU answers positively where it records a negative response", fm, "O2/"))
+    fc = next((c for i, c in enumerate(cases) if c["kind"] in ("wdbi", "wmba", "dddiclear") and verdicts[i] == "ok"
+               and c["ecu"]["answers"][:1] == [["neg", 0x31]] and c["ecu"]["sread"] == "ok"
+               and all(v == "ok" for v in c["ecu"].get("dsc", {}).values())), None)
+    if need("accepted case with a scripted negative response", fc):
+        assert fc is not None
+        fm = run_prim(fc, mutant="fake-answers-positive-when-scripted-negative")
+        muts.append(("fake ECU answers positively where it records a negative response", fm, "O2/"))
+    if skipped and not rep.violations:
+        raise Machinery(f"binding self-test: no accepted trace of the needed shape: {skipped}")
+    if not muts:
+        rep.extra["binding_selftest"] = {"skipped (the tree under test violates the contract there)": skipped}
+        return
     for n, (_, t, _) in enumerate(muts):
         t["id"] = n
     v, _u = _validate([t for _, t, _ in muts], None)
@@ -386,6 +424,8 @@ def _selftest(rep: Report, traces: list[dict[str, Any]], cases: list[dict[str, A
     wrong = [name for n, (name, _, want) in enumerate(muts) if not v[n].startswith(want)]
     if wrong:
         raise Machinery(f"binding self-test: corrupted traces / fake mutants not rejected as expected: {wrong}: {got}")
+    if skipped:
+        got["skipped (the tree under test violates the contract there)"] = "; ".join(skipped)
     rep.extra["binding_selftest"] = got
 
 
